@@ -78,6 +78,7 @@ type prefill struct {
 	Consumed int `json:"consumed"`
 }
 type scenario struct {
+	Lenient bool      `json:"lenient"` // probes do not claim to list everything (hostile clients may have created state)
 	Prefill []prefill `json:"prefill"`
 	Nodes   []int     `json:"nodes"`
 	Auth    []authEnt `json:"auth"` // when present: a credentials file for the real auth.FileHandler
@@ -85,10 +86,12 @@ type scenario struct {
 }
 
 type runner struct {
-	w      *node.World
-	r      *rec.Recorder
-	gossip string
-	stall  bool
+	root    *rec.Recorder
+	lenient bool
+	w       *node.World
+	r       *rec.Recorder
+	gossip  string
+	stall   bool
 }
 
 func (x *runner) client(c int) *node.Client {
@@ -100,8 +103,8 @@ func (x *runner) settledOnce() (bool, string) {
 	w := x.w
 	for c, cl := range w.Conns {
 		sid := fmt.Sprintf("s%d", c)
-		if cl.Node.Down {
-			continue
+		if cl.Node.Down || cl.Hostile() {
+			continue // nothing is expected of a failed node, and an offender may be in any state
 		}
 		if cl.Established() && !cl.Ended() {
 			if w.Count("shutdown.done:"+sid) > 0 {
@@ -223,7 +226,7 @@ func (x *runner) probe() {
 			if held == nil {
 				held = []int32{}
 			}
-			return rec.Ev{"op": "probe", "n": id, "synced": x.gossip == "auto", "sessions": ss, "subs": us, "retained": rs, "local": local, "held": held}
+			return rec.Ev{"op": "probe", "n": id, "synced": x.gossip == "auto" && !x.lenient, "sessions": ss, "subs": us, "retained": rs, "local": local, "held": held}
 		})
 	}
 }
@@ -255,10 +258,11 @@ func (x *runner) autoResponder(cl *node.Client, mode string) {
 }
 
 func (x *runner) run(idx int, s scenario) {
-	w := node.NewWorld(x.r)
+	w := node.NewWorld(x.root)
 	x.w = w
 	x.gossip = "auto"
 	x.stall = false
+	x.lenient = s.Lenient
 	defer w.Close()
 	if len(s.Nodes) == 0 {
 		s.Nodes = []int{1}
@@ -271,7 +275,8 @@ func (x *runner) run(idx int, s scenario) {
 	if pf == nil {
 		pf = []prefill{}
 	}
-	x.r.Emit(rec.Ev{"op": "new", "scn": idx, "nodes": s.Nodes, "table": tbl, "prefill": pf})
+	w.R.Emit(rec.Ev{"op": "new", "scn": idx, "nodes": s.Nodes, "table": tbl, "prefill": pf})
+	x.r = w.R
 	if len(s.Auth) > 0 {
 		dir, _ := ioutil.TempDir("", "brokerauth")
 		defer os.RemoveAll(dir)
@@ -345,6 +350,8 @@ func (x *runner) step(o op) {
 			cl.MarkEstablished()
 		}
 		x.settle()
+	case "open":
+		x.autoResponder(w.Open(o.C, o.N), "none")
 	case "sub":
 		cl := x.client(o.C)
 		fs := []string{}
@@ -561,7 +568,7 @@ func main() {
 	}
 	sc := bufio.NewScanner(in)
 	sc.Buffer(make([]byte, 1<<20), 1<<28)
-	x := &runner{r: r}
+	x := &runner{r: r, root: r}
 	n := 0
 	for sc.Scan() {
 		n++
